@@ -39,8 +39,19 @@ INPUTS = {
                  ("b", [(i * 4 + 0.5, i * 4 + 2.5, "xy"[i % 2]) for i in range(9)])),
 }
 DISSIMS = [{"k": "comb", "a": 1.0, "b": 1.0, "de": 1.0},
-           {"k": "comb", "a": 2.0, "b": 1.0, "de": 0.5, "cat": {"k": "ord", "labels": ["rare", "x", "xy", "y"]}},
+           {"k": "comb", "a": 2.0, "b": 1.0, "de": 0.5, "cat": {"k": "ord", "labels": ["gone", "rare", "x", "xy", "y"]}},
            {"k": "pos", "de": 1.0}]
+
+
+def build_input(iname):
+    """INPUTS[iname], plus - for every input - a category that no unit carries any more (a unit labelled 'gone'
+    was added and removed): computations must leave the category set alone."""
+    from pyannote.core import Segment
+    c = build_continuum(INPUTS[iname])
+    a = c.annotators[0]
+    c.add(a, Segment(70, 71), "gone")
+    c.remove(a, to_unit((70, 71, "gone")))
+    return c
 
 
 def snap_c(c):
@@ -278,7 +289,7 @@ def run_case(pa, E, iname, recipe, ename, mutation):
     """returns (problems, n_derived)"""
     fn, need2, allow_window, need_comb = E[ename]
     spec = INPUTS[iname]
-    c = build_continuum(spec)
+    c = build_input(iname)
     d = A.DISSIMS.get(recipe)
     d_before = snap_d(d)
     before = snap_c(c)
